@@ -192,6 +192,14 @@ def g_seq(rng, alphabet=None, nonempty=False):
     return "".join(rng.choice(alphabet) for _ in range(n))
 
 
+def g_seq_w(rng, cpl, alphabet=None, nonempty=False):
+    """sequence whose length is, in a third of the cases, an exact multiple of the line width"""
+    if cpl and rng.random() < 0.35:
+        alphabet = alphabet or rng.choice([NUC, AMB, PROT])
+        return "".join(rng.choice(alphabet) for _ in range(cpl * rng.choice([1, 1, 2, 3])))
+    return g_seq(rng, alphabet, nonempty)
+
+
 def g_fasta(rng):
     n = rng.choice([1, 1, 2, 3, 5])
     heads = []
@@ -199,7 +207,8 @@ def g_fasta(rng):
         h = g_header(rng)
         if h not in heads:
             heads.append(h)
-    return [[h, g_seq(rng)] for h in heads], rng.choice([1, 2, 3, 5, 10, 60, 80])
+    cpl = rng.choice([1, 2, 3, 5, 10, 60, 80, 80])
+    return [[h, g_seq_w(rng, cpl)] for h in heads], cpl
 
 
 def c_fasta_rt(rng):
@@ -216,7 +225,7 @@ def c_fasta_edit(rng):
         r = rng.random()
         h = rng.choice(pool)
         if r < 0.55:
-            s = g_seq(rng)
+            s = g_seq_w(rng, cpl)
             ops.append(f"fa_set {es(h)} {es(s)}")
             hist.append(["set", h, s])
         elif r < 0.8:
@@ -267,7 +276,7 @@ def g_fastq(rng):
         if h in heads:
             continue
         heads.append(h)
-        s = g_seq(rng, rng.choice([NUC, AMB, NUC + "@"]), nonempty=True)
+        s = g_seq_w(rng, cpl, rng.choice([NUC, AMB, NUC + "@"]), nonempty=True)
         ents.append([h, s, g_scores(rng, off, len(s), cpl)])
     return off, cpl, ents
 
@@ -289,7 +298,7 @@ def c_fastq_edit(rng):
         r = rng.random()
         h = rng.choice(pool)
         if r < 0.6:
-            s = g_seq(rng, NUC, nonempty=rng.random() < 0.9)     # an empty sequence must be rejected (ValueError)
+            s = g_seq_w(rng, cpl, NUC, nonempty=rng.random() < 0.9)     # an empty sequence must be rejected (ValueError)
             q = g_scores(rng, off, len(s), cpl)
             ops.append(f"fq_set {es(h)} {es(s)} {ei(q)}")
             hist.append(["set", h, s, q])
@@ -576,6 +585,42 @@ def c_org_read(rng):
     return {"kind": "org_read", "ops": [f"org_read {el(lines)}"]}
 
 
+def c_gff_edit_dir(rng):
+    """several directive lines interleaved with entries, then edits before and after them"""
+    safe = _safe_codes()
+    ops, hist = ["gff_new"], []
+    n = 0
+
+    def app():
+        nonlocal n
+        e = g_gff_entry(rng)
+        ops.append(f"gff_append {safe} {enc_entry(e)}"); hist.append(["append", e]); n += 1
+
+    def direc():
+        d = rng.choice(["sequence-region", "note", "species"])
+        args = [rng.choice(["chr1", "1", "99"]) for _ in range(rng.randint(0, 2))]
+        ops.append(f"gff_directive {es(d)} {es(d + ' ' + ' '.join(args))}"); hist.append(["directive", d, args])
+    for _ in range(rng.randint(1, 3)):
+        for _ in range(rng.randint(0, 2)):
+            app()
+        direc()
+    app()
+    for _ in range(rng.randint(1, 4)):
+        r = rng.random()
+        i = rng.randint(0, max(n - 1, 0))
+        e = g_gff_entry(rng)
+        if r < 0.5:
+            ops.append(f"gff_insert {i} {safe} {enc_entry(e)}"); hist.append(["insert", i, e]); n += 1
+        elif r < 0.7:
+            ops.append(f"gff_set {i} {safe} {enc_entry(e)}"); hist.append(["set", i, e])
+        elif r < 0.85 and n > 1:
+            ops.append(f"gff_del {i}"); hist.append(["del", i]); n -= 1
+        else:
+            direc()
+    ops.append("gff_reread")
+    return {"kind": "gff_edit", "ops": ops, "spec": {"o": "gff_hist", "hist": hist}}
+
+
 def c_gff_text(rng):
     lines = []
     for _ in range(rng.randint(0, 7)):
@@ -713,7 +758,7 @@ def c_seq_conv(rng):
 
 GENS = [(c_fasta_rt, 8), (c_fasta_edit, 8), (c_fasta_text, 4), (c_fastq_rt, 8), (c_fastq_edit, 6), (c_fastq_text, 4),
         (c_fastq_offset, 2), (c_loc, 10), (c_loc_parse, 6), (c_gff_quote, 4), (c_gff_line, 8), (c_gff_parse, 3),
-        (c_gff_edit, 8), (c_gff_group, 5), (c_gff_text, 3), (c_gbf_rt, 8), (c_gbf_print, 4), (c_gbf_parse, 6), (c_org_print, 4), (c_org_read, 3), (c_gb_edit, 8), (c_gb_text, 3), (c_wrap, 2), (c_genbank, 10), (c_gff_annot, 5),
+        (c_gff_edit, 8), (c_gff_edit_dir, 5), (c_gff_group, 5), (c_gff_text, 3), (c_gbf_rt, 8), (c_gbf_print, 4), (c_gbf_parse, 6), (c_org_print, 4), (c_org_read, 3), (c_gb_edit, 8), (c_gb_text, 3), (c_wrap, 2), (c_genbank, 10), (c_gff_annot, 5),
         (c_seq_conv, 4)]
 
 
@@ -727,7 +772,28 @@ def cases(rng, tier):
 def corpus():
     safe = _safe_codes()
     inexpr = [{"key": "misc", "locs": [[7, 7, 0, 0]], "qual": {"note": 'a"b'}}, {"key": "misc", "locs": [[7, 7, 0, 0]], "qual": {"a=b": "v"}}]
-    return [
+    mult = []
+    for cpl, ln in ((80, 80), (80, 160), (1, 3), (3, 6), (60, 60)):
+        sq = ("ACGT" * 50)[:ln]
+        hist = [["set", "a", sq], ["set", "b", "ACG"], ["set", "a", sq[::-1]], ["del", "b"], ["del", "a"]]
+        mult.append({"kind": "fasta_edit", "ops": [f"fa_new {cpl}", f"fa_set {es('a')} {es(sq)}", f"fa_set {es('b')} {es('ACG')}",
+                                                     f"fa_set {es('a')} {es(sq[::-1])}", f"fa_del {es('b')}", "fa_items", "fa_reread"],
+                     "spec": {"o": "fasta", "cpl": cpl, "hist": hist[:4]}})
+    for cpl, ln in ((4, 8), (1, 2), (5, 5), (80, 80)):
+        sq = ("ACGT" * 20)[:ln]
+        q = [10 + (i % 30) for i in range(ln)]
+        hist = [["set", "r1", sq, q], ["set", "r2", "AC", [1, 2]], ["set", "r1", sq[::-1], q], ["del", "r2"]]
+        mult.append({"kind": "fastq_edit", "ops": [f"fq_new 33 {cpl}", f"fq_set {es('r1')} {es(sq)} {ei(q)}", f"fq_set {es('r2')} {es('AC')} 1,2",
+                                                     f"fq_set {es('r1')} {es(sq[::-1])} {ei(q)}", f"fq_del {es('r2')}", "fq_items", "fq_reread"],
+                     "spec": {"o": "fastq", "off": 33, "cpl": cpl, "hist": hist}})
+    e1 = ["chr1", "src", "gene", 1, 9, None, "+", None, {"ID": "g1"}]
+    e2 = ["chr1", "src", "exon", 2, 5, None, "+", None, {"ID": "x1"}]
+    dirs = {"kind": "gff_edit", "ops": ["gff_new", f"gff_append {safe} {enc_entry(e1)}", f"gff_directive {es('sequence-region')} {es('sequence-region chr1 1 99')}",
+                                        f"gff_append {safe} {enc_entry(e2)}", f"gff_directive {es('note')} {es('note ')}", f"gff_insert 0 {safe} {enc_entry(e2)}",
+                                        f"gff_insert 1 {safe} {enc_entry(e1)}", "gff_del 0", "gff_reread"],
+            "spec": {"o": "gff_hist", "hist": [["append", e1], ["directive", "sequence-region", ["chr1", "1", "99"]], ["append", e2], ["directive", "note", []],
+                                                ["insert", 0, e2], ["insert", 1, e1], ["del", 0]]}}
+    return mult + [dirs] + [
         # what the qualifier syntax cannot express (C12_qualifiers_quote_inexpressible): model == real code, no oracle claim
         {"kind": "gbf_rt", "ops": ["gbf_rt " + enc_feat(inexpr[0]), "gbf_rt " + enc_feat(inexpr[1])]},
         {"kind": "org_print", "ops": [f"org_print -5 {es('ACGTACGTACGT')}", f"org_print 1 {es('')}", f"org_print 999999999 {es('ACGT' * 31)}"],
@@ -1046,7 +1112,10 @@ def _o_fasta(spec):
     for step in spec["hist"]:
         if step[0] == "set":
             _, h, s = step
-            f[h] = s
+            try:
+                f[h] = s
+            except Exception as e:  # noqa: BLE001  (an edit of a file the library itself wrote must not fail)
+                return v + [(f"C12/fasta/edit-raises/{type(e).__name__}", f"set {h!r} (len {len(s)}, chars_per_line {spec['cpl']}) after {len(ref)} entries: {e}")]
             ref.pop(_norm(h), None)
             ref[_norm(h)] = s
         else:
@@ -1061,6 +1130,13 @@ def _o_fasta(spec):
                     v.append(("C12/fasta/edit/key-lost", f"del {h!r}: KeyError although the header is in the text"))
                     ref.pop(h, None)
                     return v
+            except Exception as e:  # noqa: BLE001
+                return v + [(f"C12/fasta/edit-raises/{type(e).__name__}", f"del {h!r} (chars_per_line {spec['cpl']}): {e}")]
+        if f.lines:
+            t1 = io.StringIO(); f.write(t1)
+            t2 = io.StringIO(); FastaFile.read(io.StringIO(t1.getvalue()), spec["cpl"]).write(t2)
+            if t1.getvalue() != t2.getvalue():
+                return v + [("C12/fasta/text-not-canonical", f"after {step[:2]} (chars_per_line {spec['cpl']}): written ...{t1.getvalue()[-40:]!r} ({len(t1.getvalue())} chars) re-serialised ...{t2.getvalue()[-40:]!r} ({len(t2.getvalue())} chars)")]
         view = list(f.items())
         if not f.lines:
             if view:
@@ -1128,6 +1204,8 @@ def _o_fastq(spec):
                 if len(s) == 0:
                     continue        # an empty sequence cannot be represented: rejected, file unchanged
                 raise
+            except Exception as e:  # noqa: BLE001
+                return v + [(f"C12/fastq/edit-raises/{type(e).__name__}", f"set {h!r} (len {len(s)}, chars_per_line {cpl}): {e}")]
             if len(s) == 0:
                 return v + [("C12/fastq/empty-sequence-written-unreadable", "an empty sequence was accepted")]
             ref.pop(_norm(h), None)
@@ -1143,9 +1221,18 @@ def _o_fastq(spec):
                 if h in ref:
                     v.append(("C12/fastq/edit/key-lost", f"del {h!r}: KeyError although the identifier is in the text"))
                     return v
+            except Exception as e:  # noqa: BLE001
+                return v + [(f"C12/fastq/edit-raises/{type(e).__name__}", f"del {h!r} (chars_per_line {cpl}): {e}")]
         view = canon(f.items())
         if not f.lines:
             continue
+        t1 = io.StringIO(); f.write(t1)
+        try:
+            t2 = io.StringIO(); FastqFile.read(io.StringIO(t1.getvalue()), off, cpl).write(t2)
+        except Exception:  # noqa: BLE001  (unreadable text is reported below with its own key)
+            t2 = t1
+        if t1.getvalue() != t2.getvalue():
+            return v + [("C12/fastq/text-not-canonical", f"after {step[:2]} (chars_per_line {cpl}): written ...{t1.getvalue()[-40:]!r} ({len(t1.getvalue())} chars) re-serialised ...{t2.getvalue()[-40:]!r} ({len(t2.getvalue())} chars)")]
         try:
             back = canon(_reread(FastqFile, f, off, cpl).items())
         except Exception as e:  # noqa: BLE001
@@ -1342,10 +1429,17 @@ def _o_gff_hist(spec):
             continue
         try:
             view = [f[i] for i in range(len(f))]
-            back = _reread(gff.GFFFile, f)
-            back = [back[i] for i in range(len(back))]
+            g = _reread(gff.GFFFile, f)
+            back = [g[i] for i in range(len(g))]
+            it_view, it_back = list(f), list(g)
         except Exception as e:  # noqa: BLE001
             return [("C12/gff/edit/entry-unreadable", f"after {step[0]}: {type(e).__name__}: {e}")]
+        if len(f) != len(g) or it_view != view or it_back != back:
+            return [("C12/gff/edit/len-or-iteration-differs", f"after {step[0]}: len {len(f)} vs {len(g)} in the text; iteration gives {len(it_view)} / {len(it_back)} entries")]
+        if f.directives() != g.directives():
+            return [("C12/gff/edit/directives-differ-from-text", f"after {step[:2]}: directives() {f.directives()} but the text says {g.directives()}")]
+        if [f.lines[i] for _, i in f.directives()] != ["##" + t for t, _ in f.directives()]:
+            return [("C12/gff/edit/directives-differ-from-text", f"after {step[:2]}: directives() {f.directives()} does not point at its lines {f.lines}")]
         if view != back:
             return [("C12/gff/edit/view-differs-from-text", f"after {step[0]}: {len(view)} entries in the object, {len(back)} in its text")]
         exp = [(t[0].strip(), t[1].strip(), t[2].strip()) + t[3:] for t in ref]
